@@ -61,13 +61,19 @@ class Ctx:
     # ---- build ---------------------------------------------------------------------------------
     def build(self, race=False):
         """Build the harness against /repo's current working tree with the verif tag."""
-        shutil.copyfile(os.path.join(REPO, "go.sum"), os.path.join(HARNESS, "go.sum"))
         out = os.path.join(self.work, "orbtrace-race" if race else "orbtrace")
         cmd = ["go", "build", "-tags", "verif"] + (["-race"] if race else []) + ["-o", out, "./cmd/orbtrace"]
         env = goenv()
+        src = HARNESS
         if REPO != "/repo":
-            raise CheckError("VERIF_REPO other than /repo needs the replace directive edited")
-        p = subprocess.run(cmd, cwd=HARNESS, env=env, stdout=subprocess.PIPE, stderr=subprocess.STDOUT, text=True)
+            # experiments only (bin/seedcheck with SEED_SCRATCH=1): build a private copy of the harness against a
+            # scratch worktree, so that /repo is left alone while a background run is using it
+            src = os.path.join(self.work, "harness")
+            if not os.path.isdir(src):
+                shutil.copytree(HARNESS, src)
+                subprocess.run(["go", "mod", "edit", "-replace", "github.com/paulmach/orb=" + REPO], cwd=src, env=env, check=True)
+        shutil.copyfile(os.path.join(REPO, "go.sum"), os.path.join(src, "go.sum"))
+        p = subprocess.run(cmd, cwd=src, env=env, stdout=subprocess.PIPE, stderr=subprocess.STDOUT, text=True)
         if p.returncode != 0:
             raise CheckError("harness build failed:\n" + p.stdout[-4000:])
         if not race:
